@@ -95,6 +95,7 @@ const EXPR_CONSTRUCTS: &[&str] = &[
     "filter_cb",
     "max_key",
     "min_key",
+    "host_iter_call",
 ];
 /// Builtins that consume the container eagerly (no callback): only release is checkable.
 const EAGER_CONSUMERS: &[&str] = &[
@@ -115,6 +116,9 @@ const EAGER_CONSUMERS: &[&str] = &[
     "R = repr(C) + str(C)",
     "R = (1 in C)",
     "a, b, c = C",
+    "R = iter_take(C, 1)",
+    "R = iter_take(C, 0)",
+    "R = iter_take(C, 99)",
 ];
 /// Eager consumers that fail part-way through consuming C2 (a list with a poisoned element).
 const FAILING_CONSUMERS: &[&str] = &[
@@ -329,6 +333,7 @@ fn programs(s: &Spec) -> (String, String, String) {
         "filter_cb" => "R = list(filter(act, C))\n".to_owned(),
         "max_key" => "R = max(C, key = act)\n".to_owned(),
         "min_key" => "R = min(C, key = act)\n".to_owned(),
+        "host_iter_call" => "R = iter_call(C, act)\n".to_owned(),
         "eager" => format!("{}\n", EAGER_CONSUMERS[s.at]),
         "eager_fail" => format!("{}\n", FAILING_CONSUMERS[s.at]),
         "after_inner" => format!("def run():\n    for w in C:\n        for x in C:\n            noop(x)\n        mut()\nrun()\n"),
